@@ -105,7 +105,7 @@ def main(pid, tier, seed):
         name = 'v%d' % k
         os.symlink(d, os.path.join(rcopy, 'Rules', name))
         total = len(full)
-        for N in [None, rng.randint(1, total), total + 1]:
+        for N in [None, rng.randint(1, total), total + 1] + [n_ for n_ in (1, 2, 3) if n_ <= total and k < 4]:
             for tofile in (False, True):
                 args = ['-r', name]
                 if N is not None:
